@@ -20,6 +20,8 @@ func AllMonitors() []Monitor {
 		&MonC08{},
 		&MonC09{},
 		&MonC10{},
+		&MonC11{},
+		&MonC14{},
 	}
 }
 
@@ -33,6 +35,7 @@ func init() {
 	Plans["C07"] = planC07
 	Plans["C08"] = planC08
 	Plans["C09"] = planC09
+	Plans["C11"] = planC11
 }
 
 func (w *World) setupCommon(hostedChance int) {
@@ -206,4 +209,15 @@ func ensurePauseOp(w *World) {
 	op := UserOp{Label: "pause " + name, Do: func(w *World) { setLifecycle(w, key, "Paused") }}
 	at := w.Scn.Intn(len(sc.UserOps)+1, "pause-at")
 	sc.UserOps = append(sc.UserOps[:at], append([]UserOp{op}, sc.UserOps[at:]...)...)
+}
+
+func planC11(w *World, spec RunSpec) {
+	s := w.Scn
+	w.setupCommon(0)
+	w.drawFaultMix("err-before", "lost-response", "crash", "compaction", "duplicate")
+	w.Cfg.Ndist = 60 + s.Intn(300, "ndist")
+	w.Scenario = GenOS(w, OSProfile{MaxSets: 2, Delegation: true, Lifecycle: true, LateCreate: true, Violations: true})
+	w.StartProcesses()
+	w.Disturb(w.Cfg.Ndist)
+	w.finish()
 }
